@@ -4,6 +4,7 @@ package checks
 
 import (
 	"fmt"
+	"math"
 	"math/big"
 	"math/bits"
 	"sort"
@@ -79,6 +80,14 @@ func primeStale(g random.Rand, t *tape) {
 
 // uintnExhaustive runs the real UintN(n) on every first-draw tape. Returns a violation string.
 func uintnExhaustive(run *mon.Run, n uint64, depth2 int) (evals int64) {
+	var cur uint64
+	if !tryRun(func() { evals = uintnExhaustiveBody(run, n, depth2, &cur) }) {
+		run.Violate("C15:uintn:rejection-behaviour", fmt.Sprintf("UintN(%d): on first-draw tape value %#x followed by all-zero bytes the call kept drawing until the tape ran out (it never accepts the value 0)", n, cur), map[string]any{"n": n, "tape_le": cur})
+	}
+	return
+}
+
+func uintnExhaustiveBody(run *mon.Run, n uint64, depth2 int, cur *uint64) (evals int64) {
 	t := &tape{data: make([]byte, 0, 64)}
 	g := random.NewVerifRand(t)
 	primeStale(g, t)
@@ -92,6 +101,7 @@ func uintnExhaustive(run *mon.Run, n uint64, depth2 int) (evals int64) {
 		run.Violate("C15:uintn:"+sig, fmt.Sprintf("UintN(%d): %s (first-draw tape value %#x)", n, what, v), map[string]any{"n": n, "tape_le": v, "size": size})
 	}
 	for v := uint64(0); v < total; v++ {
+		*cur = v
 		t.reset(2*size + 8)
 		for i := 0; i < size; i++ {
 			t.data[i] = byte(v >> (8 * uint(i)))
@@ -182,6 +192,11 @@ func uintnSampled(run *mon.Run, n uint64, label string, samples int) (evals int6
 	g := random.NewVerifRand(t)
 	primeStale(g, t)
 	size := byteSize(n - 1)
+	// bit balance: for a value uniform on [0,n) every bit below the top two is 1 with probability
+	// 1/2 up to 2^-(gap); a stuck or correlated bit shows as a deviation far beyond 6 sigma
+	nbits := bits.Len64(n-1) - 2
+	ones := make([]int, 64)
+	accepted := 0
 	for i := 0; i < samples; i++ {
 		t.reset(1024)
 		copy(t.data, mon.RandBytes(r, 1024))
@@ -198,6 +213,21 @@ func uintnSampled(run *mon.Run, n uint64, label string, samples int) (evals int6
 		if t.pos%size != 0 || t.sizes[0] != size {
 			run.Violate("C15:uintn:draw-size", fmt.Sprintf("UintN(%d) consumed %d bytes in reads of %d (size %d)", n, t.pos, t.sizes[0], size), map[string]any{"n": n})
 			return
+		}
+		accepted++
+		for b := 0; b < nbits; b++ {
+			if out>>uint(b)&1 == 1 {
+				ones[b]++
+			}
+		}
+	}
+	if accepted >= 1000 {
+		lim := 6 * math.Sqrt(float64(accepted)/4)
+		for b := 0; b < nbits; b++ {
+			if d := math.Abs(float64(ones[b]) - float64(accepted)/2); d > lim {
+				run.Violate("C15:uintn:bit-imbalance", fmt.Sprintf("UintN(%d): over %d sampled tapes bit %d of the result is set %d times (expected %d +- %.0f at 6 sigma)", n, accepted, b, ones[b], accepted/2, lim), map[string]any{"n": n, "bit": b, "ones": ones[b], "samples": accepted})
+				return
+			}
 		}
 	}
 	if size < 2 {
@@ -621,7 +651,8 @@ func C15(run *mon.Run) {
 		run.Shape("error|" + c.name)
 	}
 	r := run.Rand("seeds")
-	for i := 0; i < 30; i++ {
+	// (skipped when the tape monitors already reported: a sampler that never accepts would hang here)
+	for i := 0; i < 30 && run.ViolationCount() == 0; i++ {
 		seed := mon.RandBytes(r, 32)
 		a, _ := random.NewChacha20PRG(seed, nil)
 		b, _ := random.NewChacha20PRG(seed, nil)
